@@ -190,8 +190,18 @@ def cases(rng, tier):
         stream = "int" if rng.random() < 0.6 else "float"
         shape = [1 if rng.random() < 0.15 else rng.randint(1, 5) for _ in range(N)]
         t = gen_tensor(rng, shape, stream=stream)
-        out.append({"kind": "key", "t": t.to_json(), "key": gen_key(rng, shape), "stream": stream,
-                    "arr_kind": rng.choice(["list", "list", "np", "torch"]), "dd": rng.choice(["float32", "float64"])})
+        c = {"kind": "key", "t": t.to_json(), "key": gen_key(rng, shape), "stream": stream,
+             "arr_kind": rng.choice(["list", "list", "np", "torch"]), "dd": rng.choice(["float32", "float64"])}
+        if rng.random() < 0.35:
+            # chained indexing t[key][key2]: results of indexing (identity cores from None entries, absorbed integer factors, open
+            # boundary ranks of CP runs) are tensors like any other
+            try:
+                sh2 = list(np.asarray(nat_index(np.zeros(shape), c["key"])).shape)
+                if sh2 and len(sh2) <= 5 and all(d_ >= 1 for d_ in sh2):
+                    c["key2"] = gen_key(rng, sh2)
+            except IndexError:
+                pass
+        out.append(c)
     for _ in range(nbad):
         N = rng.choice([1, 2, 3, 3, 4])
         shape = [rng.randint(1, 4) for _ in range(N)]
@@ -314,6 +324,23 @@ def run_case(ctx, case):
             ctx.oracle("valid key %s raised %s: %s" % (key, res[1], res[2]), case); ctx.count("impl_raise:" + res[1])
             return
         compare_result(ctx, case, "t[%s]" % (pk,), res[1], np.asarray(exp), mtoks, exact)
+        if case.get("key2") is not None and isinstance(res[1], tn.Tensor):
+            key2 = case["key2"]
+            pk2 = py_key(key2, case.get("arr_kind", "list"))
+            ctx.count("chained")
+            try:
+                exp2 = nat_index(np.asarray(exp), key2)
+            except IndexError:
+                return
+            r2 = with_dd(dd, lambda: safe(lambda: res[1][pk2]))
+            if r2[0] == "err":
+                ctx.oracle("chained indexing t[%s][%s]: the second (valid) key raised %s: %s" % (pk, pk2, r2[1], r2[2]), case,
+                           cls={"op": "getitem", "predicate": "chained indexing raises"}); return
+            m2 = None
+            if use_model and mtoks is not None and mtoks[0] == "ok" and mtoks[1] == "T":
+                m1 = parse_tensor(mtoks, 1)[0]
+                m2 = ctx.drv().call("getitem " + ser_key(key2) + " " + m1.ser())
+            compare_result(ctx, case, "t[%s][%s]" % (pk, pk2), r2[1], np.asarray(exp2), m2, exact)
         return
     # tools defined through indexing
     op = case["op"]
